@@ -105,3 +105,20 @@ Definition safe_rn_b (g : grammar) (T : table) : bool :=
   sound_rn_b g T &&
   (let E := eps_ok_syms g in
    forallb (fun st => goto_ok_b g st && no_aug_reduce_b g st && rn_tails_b g E st) (t_states T)).
+
+(* ---- the right-nulled reductions themselves (what makes a table a RIGHT-NULLED table,
+   Scott & Johnstone: an item whose remaining symbols are all nullable reduces on its
+   lookaheads, at EVERY such position).  Not needed for nlr_exact (the machine may reduce the
+   empty tail explicitly), but the RNGLR algorithm of glr/parser.rs relies on it: it never
+   re-applies reductions of length 0 over a new edge. ---------------------------------- *)
+Definition rn_complete_state_b (g : grammar) (E : list nat) (st : state) : bool :=
+  forallb (fun it =>
+             let p := i_prod it in
+             let i := i_pos it in
+             if is_aug_prod g p then true
+             else if forallb (fun X => memb X E) (skipn i (rhs g p))
+                  then forallb (fun a => has_action (nth a (s_actions st) []) (Reduce p i)) (i_follow it)
+                  else true) (s_items st).
+
+Definition rn_complete_b (g : grammar) (T : table) : bool :=
+  let E := eps_ok_syms g in forallb (rn_complete_state_b g E) (t_states T).
